@@ -216,7 +216,7 @@ DeleteRefusalJustified(b, o) ==
             (IF d.kind = "hotfix" THEN Len(r.ver) = 4 /\ SubSeq(r.ver, 1, 3) = d.ver
              ELSE r.ver = d.ver)
      \/ d.kind = "development" /\ \E s \in Stabs(b) : StabToDev(s, d)
-     \/ d.kind # "hotfix" /\ \E t \in Tags(b) : t.ver = d.ver
+     \/ d.kind # "hotfix" /\ \E t \in Tags(b) : t.arch = d.ver
 OnlyQueuesChanged(b, o) ==
   /\ \A r \in Refs(b) : r.kind \notin QueueKinds => (HasRef(o, r.n) /\ RefOf(o, r.n).c = r.c)
   /\ \A r \in NewRefs(b, o) : r.kind \in QueueKinds
